@@ -1,0 +1,57 @@
+// Copyright 2026 The Cockroach Authors.
+//
+// Licensed under the Apache License, Version 2.0 (the "License");
+// you may not use this file except in compliance with the License.
+// You may obtain a copy of the License at
+//
+//     http://www.apache.org/licenses/LICENSE-2.0
+//
+// Unless required by applicable law or agreed to in writing, software
+// distributed under the License is distributed on an "AS IS" BASIS,
+// WITHOUT WARRANTIES OR CONDITIONS OF ANY KIND, either express or
+// implied. See the License for the specific language governing
+// permissions and limitations under the License.
+
+//go:build verif
+// +build verif
+
+package buffer
+
+// VerifState is a read-only snapshot of the hidden state of a Buffer.
+// Only compiled with the "verif" build tag; used by external
+// verification harnesses.
+type VerifState struct {
+	Mode       OutputMode
+	MarkerOpen bool
+	ValidUntil int
+	Len        int
+	Cap        int
+}
+
+// VerifState returns the hidden state of the buffer without
+// finalizing or otherwise modifying it.
+func (b *Buffer) VerifState() VerifState {
+	return VerifState{
+		Mode:       b.mode,
+		MarkerOpen: b.markerOpen,
+		ValidUntil: b.validUntil,
+		Len:        len(b.buf),
+		Cap:        cap(b.buf),
+	}
+}
+
+// VerifRawBytes returns a copy of the raw (non-finalized) contents.
+func (b *Buffer) VerifRawBytes() []byte {
+	return append([]byte(nil), b.buf...)
+}
+
+// VerifClone returns a deep copy of the buffer, with the same spare
+// capacity as the original.
+func (b *Buffer) VerifClone() *Buffer {
+	c := *b
+	if b.buf != nil {
+		c.buf = make([]byte, len(b.buf), cap(b.buf))
+		copy(c.buf, b.buf)
+	}
+	return &c
+}
